@@ -430,6 +430,19 @@ fn wide_program(idx: u64) -> Option<Program> {
             }
             ss.push(say(var(&xs)));
         }
+        6 => {
+            // reads far beyond the end, of an array and of a string: missing elements, not errors
+            let far = [1e9, 4294967296.0, 9007199254740992.0, 18446744073709551615.0, 18446744073709551616.0, 1e30, 1e300, f64::MAX];
+            let k = far[(idx as usize) % far.len()];
+            ss.push(Stmt::Push { array: pvar(&xs), value: Some(PushRhs::List((0..(n % 5)).map(|i| num(i as f64)).collect())) });
+            ss.push(say(Expr::Prim(Prim::Sub(Box::new(pvar(&xs)), Box::new(Prim::Lit(Lit::Num(k)))))));
+            ss.push(put(bin(BinOp::Divide, num(1.0), num(0.0)), &simple("Far")));
+            ss.push(say(Expr::Prim(Prim::Sub(Box::new(pvar(&xs)), Box::new(pvar(&simple("Far")))))));
+            ss.push(put(strlit("text"), &simple("Text")));
+            ss.push(say(Expr::Prim(Prim::Sub(Box::new(pvar(&simple("Text"))), Box::new(Prim::Lit(Lit::Num(k)))))));
+            ss.push(say(Expr::Prim(Prim::Sub(Box::new(pvar(&simple("Text"))), Box::new(pvar(&simple("Far")))))));
+            ss.push(say(var(&xs)));
+        }
         _ => return None,
     }
     Some(Program::single(ss))
@@ -457,7 +470,7 @@ pub fn run(ctx: &mut Ctx) {
         return;
     }
     ctx.cases("fractional_index", 3_000, |ctx, rng, _| fractional_index_case(ctx, rng));
-    ctx.cases("wide_and_deep", 66, |ctx, rng, idx| {
+    ctx.cases("wide_and_deep", 77, |ctx, rng, idx| {
         if let Some(p) = wide_program(idx) {
             let c = exec_compare(ctx, "wide", &p, b"", &Spelling::canonical(), rng);
             match c.verdict {
